@@ -26,14 +26,14 @@ CLAIMED['C16'] = {
     'technique': 'symbolic execution of Banner.parse / get_banner / Software.parse over strings and byte streams with symbolic characters (regex model), all paths per shape',
     'text': 'For every banner line generated from the grammar within the length bounds (all printable characters), every arbitrary string of <=3..4 code points, '
             'every header/banner stream of the listed shapes and chunkings, the solver shows acceptance, exact part recovery, round-trip stability, '
-            'sanitising, header separation and product/version extraction.',
+            'sanitising, header separation (also through the whole audit() with reconnecting probes) and product/version extraction.',
     'note': 'Bounded by shapes in props/c16.py META; socket replaced by scripted chunks; regex/bytearray/io models validated per path.',
 }
 CLAIMED['C09'] = {
     'engines': 'ZX',
     'technique': 'symbolic execution of the real parsers and of the whole audit() against a scripted network whose bytes are solver variables; exception classes leaving each stage compared with what call sites catch',
     'text': 'For every byte string within the bounds at every stage (banner loop, packet reader, KEXINIT/PKM parsers, KEX reply, GEX group, and the real audit() with '
-            'arbitrary first-connection bytes or arbitrary probe replies) z3 explores all paths: only documented end states occur, loops consume input '
+            'arbitrary first-connection bytes, arbitrary probe replies, arbitrary version text after a recognised product name, a KEXINIT cut inside its padding) z3 explores all paths: only documented end states occur, loops consume input '
             '(recv calls <= chunks+1), malformed handshakes give status 1 without report, probe misbehaviour leaves a complete report.',
     'note': 'Bounded stream lengths (props/c09.py META); wall-clock replaced by progress bound + OS timeout contract; randrange/pow/CRC stubs as listed; rate-test phase in C19.',
 }
@@ -44,7 +44,7 @@ CLAIMED['C06'] = {
     'text': 'For all policy/peer lists of 0..3 names (symbolic characters, strict-kex markers placed), both allow_* flags, optional host keys, all sizes of the '
             'listed digit counts and CA type combinations, z3 shows verdict == specification, passed iff no errors, errors name exactly the failing fields '
             'with expected/actual values, field interactions are conjunctions, and the monotonicity clauses.',
-    'note': 'Bounded list lengths/name lengths (props/c06.py META); assumes a fresh Policy per evaluation (syntactic glue check on target_worker_thread).',
+    'note': 'Bounded list lengths/name lengths (props/c06.py META); every evaluation starts from an empty error list: checked through two worker tasks sharing one configuration (O10).',
 }
 
 CLAIMED['C05'] = {
@@ -52,7 +52,8 @@ CLAIMED['C05'] = {
     'technique': 'symbolic execution of Policy.create -> Policy(policy_data) -> evaluate over peers with symbolic names/sizes; single-perturbation drift harnesses; finite exhaustive run over the built-in table',
     'text': 'For every peer within the bounds (names over the whole RFC 4251 alphabet, sizes of the listed digit counts, both roles) z3 shows the generated '
             'policy loads, reproduces every field, passes on the same peer (also with empty name-lists), and fails naming the field for every single-position perturbation; an arbitrary '
-            'built-in-shaped policy and every current built-in pass on the peer mirrored from them.',
+            'built-in-shaped policy and every current built-in pass on the peer mirrored from them; the whole tool run twice through main() (-M, then -P on the captured file) passes on the same '
+            'scripted server and fails after one list or the group-exchange modulus drifted.',
     'note': 'json replaced by a token-preserving stub in the symbolic run (real json in the per-path pristine run); -M file writing outside.',
 }
 
@@ -70,7 +71,7 @@ CLAIMED['C01'] = {
     'text': 'For all name-lists within the bounds z3 shows: wire -> ten lists field by field; text report and JSON document list per category exactly the advertised '
             'non-empty names in order (unknown symbolic names, table names, duplicates, empty lists), compression and banner as sent, role key; SSH-1 masks decode to '
             'exactly the set bits and are shown in text and JSON; a name of arbitrary (non-UTF-8) bytes is never shortened and leaves its neighbours intact; a client audit '
-            'shows the same advertised direction in text and JSON.',
+            'shows the same advertised direction in text and JSON; through the whole audit() with reconnecting probes the names and compression methods stay as sent.',
     'note': 'Bounded list/name lengths (props/c01.py META); client-to-server lists are not reported by the tool (documented source is server-to-client); json.dumps captured.',
 }
 
@@ -78,7 +79,8 @@ CLAIMED['C02'] = {
     'engines': 'ZX',
     'technique': 'symbolic execution of the real output()/audit()/evaluate_policy on severity mixes with symbolic unknown names, symbolic output options, scripted broken handshakes and a symbolic policy',
     'text': 'For every ordering of failure/warning/clean/unknown algorithms within the bounds and all output options z3 shows status == fold of the rendered severities and '
-            'independence from batch/verbose/JSON/level; ten broken-handshake stages give status 1 and no report in single and target-list mode; policy mode maps verdict to 0/3.',
+            'independence from batch/verbose/JSON/level; seventeen broken-handshake stages give status 1 and no report (no JSON document listing algorithms) in single and target-list mode; policy mode maps verdict to 0/3; '
+            'the status also counts the failure/warning lines of the general section (SSH-1 reports, 1.99 banners, non-ASCII banners).',
     'note': 'Severity classes are recomputed from the current table; unknown names are 2 symbolic chars; socket and json.dumps stubbed; C09 covers further malformed input.',
 }
 CLAIMED['C15'] = {
@@ -97,8 +99,8 @@ CLAIMED['C04'] = {
     'technique': 'symbolic execution of the real post_process_findings and output() on cipher/MAC lists instantiated with table names and symbolic tokens of vulnerable and near-miss shape; table diff against the pristine master table; oracle = published boolean rule',
     'text': 'For role x marker x cipher forms x MAC forms within the bounds z3 shows: without the role\'s marker exactly the ChaCha20 / (CBC and EtM) table names get exactly one '
             'Terrapin warning and no other row of any category changes; with the marker no row changes and one advisory names exactly those algorithms; disabled class members '
-            'are suppressed and never recommended; text and JSON show the note on exactly those names.',
-    'note': 'Token alphabet [a-z0-9-@], one symbolic token per name; decoy lists on the other direction make role confusion visible; known finding: unknown names of vulnerable shape cannot carry the note.',
+            'are suppressed and never recommended; text and JSON show the note on exactly those names, in server and client audits; the advisory note is shown also for a peer without other findings.',
+    'note': 'Token alphabet [a-z0-9-@], one symbolic token per name; decoy lists on the other direction make role confusion visible; decoys sit on the unreported (client-to-server) direction in both roles; known finding: unknown names of vulnerable shape cannot carry the note.',
 }
 
 CLAIMED['C13'] = {
@@ -124,7 +126,7 @@ CLAIMED['C18'] = {
     'technique': 'symbolic execution of parse_host_and_port, process_commandline (argparse stubbed, option values symbolic), SSH_Socket._resolve/connect under an arbitrary resolver answer, and the target labels',
     'text': 'For every spelling within the bounds (symbolic host characters, IPv6-like groups, port digits) z3 shows the parsed pair equals the spelling\'s meaning; command line and '
             'targets file yield exactly those pairs, ports outside 1..65535 are rejected before any socket exists; for every resolver answer of <=3 entries and every preference '
-            'only requested families are dialled, in order, with exactly (host, port); text and JSON labels denote the same pair; the real main() resolves and dials, in target order, exactly the targets as written (command line incl. -p with host:port / [IPv6], targets files mixing line forms).',
+            'only requested families are dialled, in order, with exactly (host, port); text and JSON labels denote the same pair; the real main() resolves and dials, in target order, exactly the targets as written (command line incl. -p with host:port / [IPv6], targets files mixing line forms); a port outside 1..65535 in any line is rejected before any connection; a listed SSH-1-only target keeps its label.',
     'note': 'argparse replaced by a stub returning the declared options; OS resolver replaced by FakeNet; label obligation uses 4 concrete host classes; O5 runs the real main() from the (stubbed) option namespace to the dialled endpoint.',
 }
 
@@ -141,14 +143,14 @@ CLAIMED['C12'] = {
     'technique': 'symbolic execution of the real GEXTest.run against a server model whose moduli set is a symbolic 9-bit have-set (four selection styles), of send_init_gex/get_dh_modulus_size on moduli of exact bit length, and of the OpenSSH-2048 post-processing',
     'text': 'For ALL 512 subsets of the nine standard sizes x 4 monotone selection styles (strict, round-up, OpenSSH fallback, nearest-size with out-of-range replies) x sha1/sha256 x OpenSSH/other: recorded size == smallest modulus handed out over the fixed '
             'probe sequence (OpenSSH 2048: the follow-up reply plus note), failure < 2048, warning 2048..3071, nothing from 3072, sha1 keeps a failure, <= 9 probes, no other row '
-            'touched; measured size == bit length for all moduli of the listed bit lengths; note/suppression iff OpenSSH and 2048 and sha256 advertised.',
+            'touched; measured size == bit length for all moduli of the listed bit lengths; note/suppression iff OpenSSH and 2048 and sha256 advertised; with the real _send_init and group object an answered request reports the size and a following unanswered one reports none.',
     'note': 'the DH group object (and in the Loop variant GEXTest._send_init) replaced by the symbolic server model, LoopReal runs the real _send_init/reconnect; non-monotone servers outside (property quantifies over monotone policies); randrange/pow stubbed.',
 }
 
 CLAIMED['C19'] = {
     'engines': 'ZX',
     'technique': 'symbolic execution of the real probe drivers and of DHEat._dh_rate_test with socket/select/time replaced by symbolic models: the clock is a solver variable (arbitrary non-decreasing instants), every per-connection outcome vector is explored',
-    'text': 'For all outcome vectors within the bounds: host-key phase opens at most one connection per advertised probed type, never two at once, one KEXINIT and one key-exchange '
+    'text': 'For all outcome vectors within the bounds: host-key phase opens at most one connection per advertised probed type (also when the list repeats names), never two at once, one KEXINIT and one key-exchange '
             'request per connection; GEX phase <= 9 connections per algorithm, one request each, all closed; audit() runs the rate check exactly when not skipped with limits '
             '(1.5 s, 38, 3), never the DoS features, closes every socket and retries over SSH-1 at most once whatever each connection answers; the rate-check loop under a symbolic clock keeps concurrent sockets <= limit, attempts <= max + '
             'concurrent, closes everything and terminates; at the SHIPPED limits (1.5 s, 38, 3) the same follows for runs of any length from solver-checked inductive steps of the three loops of _dh_rate_test '
@@ -158,7 +160,7 @@ CLAIMED['C19'] = {
 
 CLAIMED['C07'] = {
     'engines': 'ZX',
-    'technique': 'reduction of the schedule quantifier to two solver-checked lemmas over the real code: a footprint lemma (recording map, symbolic presence pattern of three thread ids) and an inductive worker step on a reused thread (archetype pairs with a symbolic name riding along), plus configuration isolation and the real main() target loop',
+    'technique': 'reduction of the schedule quantifier to two solver-checked lemmas over the real code: a footprint lemma (recording map, symbolic presence pattern of three thread ids) and an inductive worker step on a reused thread (archetype pairs incl. a status-0 target and answered host-key / group-exchange probes, with a symbolic name riding along), plus configuration isolation and the real main() target loop',
     'text': 'Footprint: every table access of get_db/thread_exit and of all six in-place editors uses only the calling thread\'s key, other threads\' tables unchanged, for every '
             'presence pattern. Step: a worker task that follows any archetype on the same thread renders the next target exactly as a fresh run (status, text, JSON) and leaves no '
             'table behind. Config: a shared policy/configuration is untouched by tasks. Disjoint keys + GIL-atomic dict operations => interleavings commute to sequential histories.',
@@ -168,7 +170,7 @@ CLAIMED['C08'] = {
     'engines': 'ZX',
     'technique': 'symbolic execution of the real main() aggregation loop with symbolic worker results and chosen completion orders, of target_worker_thread under every escape class, and of main()->worker->audit() on a scripted network with one failing target',
     'text': 'For N <= 3 targets with symbolic statuses/texts and every completion order: one block per target, exit status = highest ranked code, JSON stdout = bracketed join; '
-            'the worker returns a pair for every ordinary exception class; with a healthy and a failing target (ten archetypes, both positions) both yield a block in text mode and one JSON array element naming its target in JSON mode; an unreachable target is a connection error, not an internal error.',
+            'the worker returns a pair for every ordinary exception class; with a healthy and a failing target (ten archetypes, both positions) both yield a block in text mode and one JSON array element naming its target in JSON mode; an unreachable target is a connection error, not an internal error; nothing is printed outside the per-target blocks.',
     'note': 'ThreadPoolExecutor/as_completed replaced by a stub (each task once, chosen order); the two defects first recorded here (SystemExit from the packet reader, raw error text inside the JSON array) are repaired by fix: commits.',
 }
 
